@@ -6,7 +6,7 @@
    the read list rs; [multi_ops_ok] / [multi_free] = side conditions on the catalogued multi-substitutions. *)
 From Coq Require Import String.
 From Coq Require Import Permutation.
-From Aldy Require Import Base Consts Pileup PileupProofs Consts_here Consts_wf.
+From Aldy Require Import Base Consts Pileup PileupProofs Consts_here Consts_wf Exprs_region Tied_region.
 Import List.
 Open Scope Z_scope.
 
@@ -233,3 +233,19 @@ Example C06_table_example :
   map (fun p => cov_total_pos (sample_table ex_g here [ex_r1; ex_sup; ex_r2]) p) [103; 104; 105; 106; 107] = [1; 2; 2; 2; 1] /\
   cov_coverage (sample_table ex_g here [ex_r1; ex_sup; ex_r2]) [] (106, s "_") = 2.
 Proof. vm_compute. repeat split. Qed.
+
+(* ================================================================= tie to the current source tree
+   The two interval tests below are regenerated from /repo's Python AST on every run (harness/gen_exprs.py -> gen/Exprs_region.v);
+   each theorem says that the model's definition IS that expression. *)
+Theorem C06_tie_in_region : forall g r, in_region g r =
+  negb (r_offtarget r) && negb (r_funmap r) &&
+  region_overlap (inZ (r_start r)) (inZ (ref_end r)) (inZ (fst (g_wide g))) (inZ (snd (g_wide g))).
+Proof. exact region_overlap_tied. Qed.
+Goal True. idtac "ASSUME C06_tie_in_region". Abort.
+Print Assumptions C06_tie_in_region.
+
+Theorem C06_tie_window : forall g ab t p, g_mapped g = ab :: t ->
+  in_bounds g p = window_inside (inZ (fold_left Z.min (map fst t) (fst ab))) (inZ p) (inZ (fold_left Z.max (map snd t) (snd ab) - 1)).
+Proof. exact window_inside_tied. Qed.
+Goal True. idtac "ASSUME C06_tie_window". Abort.
+Print Assumptions C06_tie_window.
